@@ -12,6 +12,7 @@ Under the GIL another thread can only run where Python code runs, i.e. at exactl
 scenarios also stand for every GIL schedule of one mutator against a lookup (free-threaded builds: outside).
 """
 import json
+import os
 
 from vlib.harness import Harness
 from vlib.symx import Violation, assume, native, pick, reached
@@ -21,7 +22,7 @@ from props import C10
 _SIBS = {}
 
 
-def _sib(impl):
+def _sib(impl, env=None):
     import atexit
     import os
     import subprocess
@@ -30,7 +31,7 @@ def _sib(impl):
     if p is not None and p.poll() is None:
         return p
     root = os.path.dirname(os.path.dirname(os.path.abspath(__file__)))
-    env = dict(os.environ)
+    env = dict(env or os.environ)
     env['PYTHONPATH'] = root
     env.pop('PURE_PYTHON', None)
     p = subprocess.Popen([sys.executable, '-X', 'faulthandler', '-m', 'vlib.traceserver', impl], cwd=root, env=env,
@@ -48,8 +49,8 @@ def describe(prog):
         TP.RE_WARM[prog[4]])
 
 
-def scenario(impl, prog):
-    p = _sib(impl)
+def scenario(impl, prog, env=None):
+    p = _sib(impl, env)
     try:
         p.stdin.write(json.dumps(dict(family='reent', program=prog)) + '\n')
         p.stdin.flush()
@@ -198,6 +199,143 @@ def make_s_py_atomic(params, part, nparts):
     return h
 
 
+# ---------------------------------------------------------------------------
+# Engine C: symbolic execution of the LLVM IR of the C lookup layer (vlib/irsym.py)
+# ---------------------------------------------------------------------------
+
+IR_ENTRY_TO_REENT = {'_lookup': [0, 6], '_lookup1': [1], '_adapter_hook': [2, 3], '_lookupAll': [4, 8], '_subscriptions': [5, 7]}
+IR_API_TO_POINT = {'PyObject_CallMethodObjArgs': [0, 1], 'PySequence_Tuple': [2], 'providedBy': [3], 'PyObject_CallFunctionObjArgs': [4],
+                   'PyDict_GetItem': [5, 7, 8], 'PyDict_SetItem': [5, 7, 8], 'PyObject_IsTrue': [7], 'PyObject_GetAttr': [10]}
+
+
+def ir_candidates(v):
+    """Concrete re-entrancy scenarios that exercise the IR path of a finding (used to replay it on the real build)."""
+    entries = IR_ENTRY_TO_REENT.get(v['function'], [0])
+    points = []
+    for line in v.get('trace', []):
+        if 'Python code runs in ' in line and 'calls self.changed()' in line:
+            api = line.split('Python code runs in ')[1].split(' ')[0]
+            points += IR_API_TO_POINT.get(api, [])
+    text = v.get('msg', '') + ' '.join(v.get('trace', []))
+    if 'str__self__' in text:
+        points.append(10)
+    if v['kind'] == 'reference-balance':
+        points += [11, 9]
+    if v['kind'] == 'stale-store':
+        points.append(1)
+    if not points:
+        points = [0, 1, 11]
+    out = []
+    for e in entries:
+        for p in dict.fromkeys(points):
+            for m in range(len(TP.RE_MUT)):
+                for w in range(len(TP.RE_WARM)):
+                    for fl in (0, 1):
+                        out.append([fl, e, p, m, w])
+    return out
+
+
+def run_ir(tier, ctx):
+    import os
+    import shutil
+    import subprocess
+    import time
+    from concurrent.futures import ThreadPoolExecutor
+    from vlib import irsym
+    t0 = time.time()
+    agg = dict(harness='ir_lookup', impl='c', kind='IR', paths=0, reached=0, distinct=0, unknown=0, solver_queries=0, solver_s=0.0,
+               samples=[], errors=[], exhaustive=False, jobs=[])
+    out = dict(agg=agg, violations=[], harness_errors=[], replays_attempted=0, replays_reproduced=0)
+    try:
+        text, wd = irsym.build_ir()
+    except Exception as e:
+        out['harness_errors'].append('ir_lookup: cannot produce the IR: %s' % e)
+        return out
+    try:
+        irfile = os.path.join(wd, 'zic.m2r.ll')
+        funcs = irsym.parse(text)
+        missing = [f for f in list(irsym.TARGETS) + ['LB_clear', '_getcache', '_subcache'] if f not in funcs]
+        if missing:
+            out['harness_errors'].append('ir_lookup: functions not found in the IR (renamed?): %s' % missing)
+            return out
+        quick = tier != 'thorough'
+        budget = 170 if quick else 1500
+        jobs = []
+        for entry in ('_lookup', '_lookup1', '_lookupAll', '_subscriptions'):
+            jobs.append((entry, 0, 2, '-'))
+            jobs.append((entry, 1, 1, '-'))
+        D = 8
+        for bits in range(1 << D):
+            pfx = format(bits, '0%db' % D)
+            jobs.append(('_adapter_hook', 0, 2, pfx))
+            if not quick:
+                jobs.append(('_adapter_hook', 1, 1, pfx))
+
+        def run_job(job):
+            entry, exotic, mh, pfx = job
+            r = subprocess.run([ctx['py'], '-m', 'vlib.irsym', irfile, entry, str(exotic), str(mh), str(budget), pfx],
+                               cwd=ctx['root'], env=ctx['env'], capture_output=True, text=True, timeout=budget * 2 + 120)
+            for line in r.stdout.splitlines():
+                if line.startswith('IRJSON '):
+                    return job, json.loads(line[7:])
+            return job, dict(fatal=(r.stderr or r.stdout)[-800:])
+        with ThreadPoolExecutor(max_workers=ctx['ncpu']) as ex:
+            results = list(ex.map(run_job, jobs))
+        all_exh = True
+        found = []
+        for job, st in results:
+            if st.get('fatal'):
+                out['harness_errors'].append('ir_lookup %r: worker failed: %s' % (job, st['fatal'][-300:]))
+                all_exh = False
+                continue
+            agg['paths'] += st['paths']
+            agg['solver_queries'] += st['queries']
+            agg['solver_s'] += st['solver_s']
+            agg['unknown'] += st.get('n_inconclusive', 0)
+            all_exh = all_exh and bool(st.get('exhausted')) and not st.get('n_inconclusive')
+            agg['jobs'].append(dict(entry=job[0], exotic_callbacks=bool(job[1]), max_havocs=job[2], shard=job[3], paths=st['paths'],
+                                    exhausted=st.get('exhausted'), inconclusive=st.get('n_inconclusive', 0)))
+            for inc in st.get('inconclusive', [])[:2]:
+                agg['errors'].append('inconclusive: %s' % inc['reason'][:200])
+            for v in st['violations']:
+                if not any(x['kind'] == v['kind'] and x['msg'] == v['msg'] for x in found):
+                    found.append(v)
+        agg['reached'] = agg['distinct'] = agg['paths']
+        agg['exhaustive'] = all_exh
+        agg['solver_s'] = round(agg['solver_s'], 2)
+        agg['stubs'] = dict(irsym.STUB_DOC)
+        agg['samples'] = [dict(job=j['entry'], shard=j['shard'], paths=j['paths']) for j in agg['jobs'][:4]]
+        # every IR finding is replayed on the real C build through the re-entrancy scenarios that exercise its path
+        for k, v in enumerate(found[:6]):
+            out['replays_attempted'] += 1
+            hit = None
+            for prog in ir_candidates(v):
+                try:
+                    scenario('c', prog, ctx['env'])
+                except Violation as e:
+                    hit = (prog, e)
+                    break
+            what = 'IR path in %s: %s: %s' % (v['function'], v['kind'], v['msg'][:300])
+            if hit is None:
+                out['harness_errors'].append('ir_lookup: %s - NOT reproduced by any concrete scenario on the real build (reported '
+                                             'separately, inconclusive); trace: %s' % (what, ' | '.join(v['trace'][-6:])[:600]))
+                continue
+            out['replays_reproduced'] += 1
+            rpath = os.path.join(ctx['evdir'], 'replays', 'C11-ir_lookup-%d.json' % k)
+            os.makedirs(os.path.dirname(rpath), exist_ok=True)
+            with open(rpath, 'w') as f:
+                json.dump(dict(property='C11', harness='e_reent', impl='py', params={},
+                               args=dict(fl=hit[0][0], e=hit[0][1], p=hit[0][2], m=hit[0][3], w=hit[0][4]),
+                               ir_finding=dict(function=v['function'], kind=v['kind'], msg=v['msg'], trace=v['trace'][-25:]),
+                               msg=hit[1].msg, signature=hit[1].signature), f, indent=1)
+            out['violations'].append(dict(harness='ir_lookup', impl='c', msg='%s; reproduced on the real build: %s' % (what, hit[1].msg[:400]),
+                                          signature='C11:ir:%s:%s' % (v['kind'], v['function']), replay=rpath))
+    finally:
+        shutil.rmtree(wd, ignore_errors=True)
+    agg['cpu_s'] = round(time.time() - t0, 1)
+    return out
+
+
 _ENC = ['zope.interface._zope_interface_coptimizations:LookupBase', 'zope.interface._zope_interface_coptimizations:VerifyingBase',
         'zope.interface.adapter:LookupBaseFallback.lookup', 'zope.interface.adapter:LookupBaseFallback.lookup1',
         'zope.interface.adapter:LookupBaseFallback.adapter_hook', 'zope.interface.adapter:LookupBaseFallback.lookupAll',
@@ -228,19 +366,35 @@ HARNESSES = [
             outside='arity > 1; the VerifyingBase generation snapshot (covered by e_reent)',
             oracle='result is the pre- or post-mutation answer; every entry left in any cache equals the post-mutation truth',
             stubs=['_uncached_* as uninterpreted functions of (epoch, key)', 'key objects with symbolic identity and a constant hash']),
+    Harness('ir_lookup', kind='custom', impls=('c',), run=run_ir,
+            tiers=dict(quick=dict(), thorough=dict()),
+            encoded=['zope.interface._zope_interface_coptimizations:LookupBase'],
+            bounds='LLVM IR (clang-14 -O0 + mem2reg) of the current _zope_interface_coptimizations.c: _lookup, _lookup1, _lookupAll, _subscriptions '
+                   '(every path, with always-Python callbacks <=2 havocs and, separately, with exotic callbacks - key __hash__/__eq__, __bool__ of '
+                   'a str subclass - <=1 havoc) and _adapter_hook (quick: always-Python callbacks; thorough: both), helpers _getcache / _subcache / '
+                   'LB_clear inlined; reference counts as z3 terms with an unknown number of external holders; no loops occur',
+            outside='VerifyingBase._verify/_generations_tuple (loops over registry.ro: not unrolled, covered by e_reent only); allocation failure '
+                    '(PyDict_New/PyTuple_New assumed non-NULL); destructors of unknown cached values; the CPython API implementation itself',
+            oracle='monitors M1 (no use of an object whose reference count can be 0), M2 (frame reference balance at every return), M3 (no '
+                   'value answered before a havoc-changed() stored into a dictionary reachable from self); findings are replayed on the real build',
+            stubs=['C-API contract stubs (listed in the evidence file under per_harness.stubs)', 'havoc = the real LB_clear IR executed at every call that may run Python']),
 ]
-HARNESSES[0].needs_c = True
+for _x in HARNESSES:
+    _x.needs_c = True
 
 MANIFEST = {
-    'engine': 'symx',
-    'technique': 'symbolic execution (CrossHair engine + z3): (1) solver-enumerated re-entrancy scenarios (entry point x callback point x '
-                 'mutation x cache state) executed on both builds in separate processes with a recycled-dictionary witness for writes '
-                 'through dangling cache pointers, before/after atomicity oracle and reference-count balance; (2) the pure-Python cache '
-                 'layer executed symbolically with changed() injected before/after the uncached computation',
-    'text': 'Bounded-exhaustive over the callback points at which foreign code can run inside a lookup crossed with the mutations it can '
-            'perform; under the GIL these points are also the only places another thread can be scheduled. Memory corruption is observed '
-            'through the recycled-dictionary witness and process death, not proved absent: the C source itself is not encoded (the planned '
-            'LLVM-IR executor is described in DESIGN as not built).',
-    'note': 'Trusted: CPython dict free-list behaviour for the witness (validated on the unfixed tree: the original use-after-release is '
-            'reported); twin registries as the before/after oracle.',
+    'engine': 'symx+irsym',
+    'technique': 'symbolic execution: (1) Engine C - the LLVM IR of the current C lookup layer executed with reference counts as z3 terms '
+                 '(unknown external holders), C-API contract stubs and havoc (the real LB_clear IR) at every call that may run Python; '
+                 'monitors: use of an object whose count can be 0, frame reference balance, stale store; every finding replayed on the real '
+                 'build; (2) solver-enumerated re-entrancy scenarios executed on both builds in separate processes (dangling-write '
+                 'witness, before/after atomicity, reference-count growth, process death); (3) the pure-Python cache layer executed '
+                 'symbolically (CrossHair engine) with changed() injected before/after the uncached computation',
+    'text': 'Engine C decides, for every path of _lookup/_lookup1/_lookupAll/_subscriptions/_adapter_hook (helpers inlined) and every '
+            'callback point on it, whether an object can be used after its last reference was dropped, whether the frame leaks or '
+            'over-releases, and whether a pre-mutation answer can reach a live cache - for any number of unseen external references. The '
+            'scenario tier covers what the IR tier leaves out (VerifyingBase, destructors) by bounded enumeration, and supplies the '
+            'concrete replays. Under the GIL the callback points are also the only places another thread can run.',
+    'note': 'Trusted: the C-API contract stubs (evidence lists them) and CPython\'s dict free-list behaviour for the concrete witness. '
+            'Loops (VerifyingBase) are not unrolled: outside the IR tier.',
 }
